@@ -59,9 +59,11 @@ def install():
         _SHIMMED = True
 
 
-EMBED_T = ["direct", "lst", "dct", "holder_t", "holder_ts", "pre_t", "pre_nested_t", "explicit"]
-EMBED_O = ["art", "arts", "adct", "holder_a", "pre_art", "init_art", "explicit"]
-SINGLE = {"direct", "art", "holder_t", "holder_a"}
+EMBED_T = ["direct", "lst", "dct", "holder_t", "holder_ts", "pre_t", "pre_nested_t", "explicit", "meta_t", "meta_ts"]
+EMBED_O = ["art", "arts", "adct", "holder_a", "pre_art", "init_art", "explicit", "meta_art"]
+SINGLE = {"direct", "art", "holder_t", "holder_a", "meta_t", "meta_art"}
+# "pre_on_out" (added by the plan generator, needs a second dependency as carrier): the upstream is embedded in a
+# pre-task attached to the *output configuration of another upstream task*, which the job receives as a parameter
 
 
 class PlanRun:
@@ -132,6 +134,19 @@ class PlanRun:
                 nested_pre.append(zoo.Pre(k=n, t=out))
             elif how == "init_art":
                 init.append(zoo.Init(k=n, art=out))
+            elif how == "meta_t":
+                kwargs["mt"] = out
+            elif how == "meta_ts":
+                kwargs.setdefault("mts", []).append(out)
+            elif how == "meta_art":
+                kwargs["ma"] = out
+            elif how == "pre_on_out":
+                carrier = self.outputs[d["carrier"]]
+                mark = (id(carrier), up)
+                if mark not in self.attached:
+                    # once: the carrier is sealed by the first submission that embeds it
+                    self.attached.add(mark)
+                    carrier.add_pretasks(zoo.Pre(k=n, t=out) if d.get("up_cls", "TaskT").startswith("TaskT") else zoo.Pre(k=n, art=out))
             elif how == "explicit":
                 explicit.append(self.tasks[up].__xpm__.dependency())
             else:
@@ -221,6 +236,7 @@ class PlanRun:
         self.wait_outcome = None
         self.wait_snapshot = None
         self.tasks, self.outputs = {}, {}
+        self.attached = set()
         self.actions_log = []
         rr = {"index": run_index, "end": run_spec.get("end", "normal")}
         xp.__enter__()
